@@ -189,6 +189,12 @@ Qed.
 
 End Schur.
 
+Lemma schur_inv_det n1 n2 (A : 'M[F]_n1) (B : 'M[F]_(n1, n2)) (C : 'M[F]_(n2, n1)) (D : 'M[F]_n2) :
+  A \in unitmx -> D - C *m invmx A *m B \in unitmx ->
+  invmx (block_mx A B C D) = schur_inverse A B C D
+  /\ \det (block_mx A B C D) = \det A * \det (D - C *m invmx A *m B).
+Proof. by move=> uA uS; split; [exact: schur_inv | exact: schur_det]. Qed.
+
 
 (* ---- tower law: conditioning on y1 and then on y2 = conditioning on (y1, y2) ---- *)
 Section Tower.
